@@ -145,6 +145,14 @@ func (x *asExec) nameOfRef(r vivid.ActorRef) string {
 	if r.GetPath() == "/" {
 		return "root"
 	}
+	// an actor of the scenario whose spawn has not been noted yet (a child that was spawned and terminated inside the very
+	// ActorOf call that created it): scenario names are unique, the last path segment is the name
+	if i := strings.LastIndex(r.GetPath(), "/"); i >= 0 {
+		last := r.GetPath()[i+1:]
+		if _, ok := x.sc.Parent[last]; ok {
+			return last
+		}
+	}
 	return r.GetPath()
 }
 
